@@ -26,17 +26,19 @@ EPOCH = datetime.datetime(1970, 1, 1)
 
 # ---------------------------------------------------------------- generators: valid stream
 def gen_civil(r):
-    """(datetime, nanoseconds) — mostly recent, sometimes far away; never within a few days of 1970-01-01 (F17 is about
-    jiff's comparison of instants next to the epoch, not about the file grammar)"""
+    """(datetime, nanoseconds) — mostly recent, sometimes far away, sometimes within a day of 1970-01-01T00:00Z with a
+    fraction (civil date and instant on different sides of the epoch once an offset is written: the class of the
+    repaired finding F17; parse_timestamp re-creates the instant, the price data base is keyed and ordered by instant)"""
     k = r.random()
+    if k < 0.07:
+        dt = EPOCH + datetime.timedelta(seconds=r.choice([r.randint(-86400, 86400), r.randint(-3700, 3700), -1, 0, 1]))
+        return dt, r.choice([500000000, 400000000, 600000000, 1, 999999999, 0, r.randint(1, 999999999)])
     if k < 0.8:
         y = r.randint(2019, 2027)
     elif k < 0.9:
-        y = r.choice([1, 2, 1582, 1600, 1900, 1968, 1972, 2000, 2038, 2100, 9998])
+        y = r.choice([1, 2, 1582, 1600, 1900, 1968, 1969, 1970, 1972, 2000, 2038, 2100, 9998])
     else:
         y = r.randint(3, 9997)
-        if 1968 < y < 1972:
-            y = 1980
     mo = r.randint(1, 12)
     dmax = [31, 29 if (y % 4 == 0 and (y % 100 != 0 or y % 400 == 0)) else 28, 31, 30, 31, 30, 31, 31, 30, 31, 30, 31][mo - 1]
     d = r.choice([1, dmax, r.randint(1, dmax)])
